@@ -53,6 +53,8 @@ pub(crate) struct MemScenario {
     pub shared_token: bool,
     /// end the connections in reverse order of acceptance
     pub reverse_end: bool,
+    /// the parked handlers sit behind a query-rewriting middleware (`World::rewrite`)
+    pub rewrite: bool,
 }
 
 impl MemScenario {
@@ -65,6 +67,7 @@ impl MemScenario {
             "conns": self.conns.iter().map(cell_json).collect::<Vec<_>>(),
             "shared_token": self.shared_token,
             "reverse_end": self.reverse_end,
+            "rewriting_middleware": self.rewrite,
         })
     }
     pub(crate) fn from_json(v: &Value) -> Result<MemScenario, String> {
@@ -78,6 +81,7 @@ impl MemScenario {
             conns: v["conns"].as_array().ok_or("conns")?.iter().map(cell_from_json).collect::<Result<Vec<_>, _>>()?,
             shared_token: v["shared_token"].as_bool().unwrap_or(false),
             reverse_end: v["reverse_end"].as_bool().unwrap_or(false),
+            rewrite: v["rewriting_middleware"].as_bool().unwrap_or(false),
         })
     }
 }
@@ -366,13 +370,13 @@ impl Run<'_> {
                     return c;
                 }
                 if plan.phase == Phase::Inline {
-                    self.send(&mut c, request(2, "/park_inline", 2)).await;
+                    self.send(&mut c, request(2, &w.park_path("/park_inline"), 2)).await;
                     if !w.wait(WATCHDOG, |l| l.iter().any(|e| matches!(e, Ev::ParkedInline { conn } if *conn == idx))) {
                         self.stuck(idx, "inline handler never parked");
                     }
                 }
                 if plan.phase == Phase::Off {
-                    self.send(&mut c, request(3, "/park_off", 3)).await;
+                    self.send(&mut c, request(3, &w.park_path("/park_off"), 3)).await;
                     if !w.wait(WATCHDOG, |l| l.iter().any(|e| matches!(e, Ev::ParkedOff { conn } if *conn == idx))) {
                         self.stuck(idx, "off-reader handler never parked");
                     }
@@ -566,7 +570,7 @@ pub(crate) fn run(sc: &MemScenario) -> Outcome {
     let mut out = Outcome::default();
     let n = sc.conns.len();
     let plans: Vec<Plan> = sc.conns.iter().enumerate().map(|(i, c)| Plan::new(i, c.cause, c.phase)).collect();
-    let w = World::new(plans);
+    let w = if sc.rewrite { World::new_rewriting(plans) } else { World::new(plans) };
     let shared = build_server(&w).into_shared();
     out.counters.scenarios += 1;
     out.counters.connections += n as u64;
